@@ -570,6 +570,7 @@ func main() {
 	c.Rule += " " + "Used resources are also deleted by collection (DeleteAllOf: empty admission request name)."
 	c.Rule += " " + "A Usage composed by an XR that shares kind and name with the using resource; Usages with replayDeletion (the timed replay is intercepted and counted)."
 	c.Rule += " " + "The used resource composed (and re-composed) by the real P&T composer; a Ready Usage replaced by its original manifest (resolved reference cleared)."
+	c.Rule += " " + "A ready Usage (with and without a using resource) edited to name another resource, reconciled, then the newly named resource deleted singly, by collection and as a dry run (fault-free only)."
 	c.Assumptions = []string{
 		"sim implements optimistic concurrency, no-op writes keeping resourceVersion, finalizers, foreground/background GC (DESIGN.md 2.2); orphan propagation is emulated locally in c19/env.go",
 		"reads are linearizable (the usage controller's cached Usage reads are modelled as fresh: the most favourable case for the code)",
